@@ -9,7 +9,9 @@
 #include <map>
 
 #include "optable.h"
+#include "pseudo_layout.h"
 #include "ref_context.h"
+#include "teakra/disassembler.h"
 #include "sysinst.h"
 #include "vf.h"
 
@@ -42,6 +44,34 @@ uint16_t W(const std::string& form, const std::vector<long>& v) {
             vf::add_note("inconclusive: instruction form not found: " + key);
     }
     return (uint16_t)(it->second < 0 ? 0 : it->second);
+}
+
+// status / configuration words a program writes to change its interrupt enables: mov #imm16, W
+const char* kStWord[] = {"st0", "st2", "mod3", "stt2"};
+uint16_t mov_imm_to(const char* word) {
+    static std::map<std::string, uint16_t> cache;
+    auto it = cache.find(word);
+    if (it != cache.end())
+        return it->second;
+    uint16_t found = 0;
+    for (uint32_t op = 0; op < 0x10000 && !found; ++op) {
+        const optable::Info& i = optable::info((uint16_t)op);
+        if (i.entry < 0 || (i.form != "mov(Imm16,SttMod)" && i.form != "mov(Imm16,Register)"))
+            continue;
+        auto t = Teakra::Disassembler::GetTokenList((uint16_t)op, 0);
+        if (!t.empty() && t.back() == word)
+            found = (uint16_t)op;
+    }
+    if (!found)
+        vf::add_note(std::string("inconclusive: no 'mov #imm16, ") + word + "' form found");
+    cache[word] = found;
+    return found;
+}
+int layout_index(const char* word) {
+    for (size_t i = 0; i < layout::words().size(); ++i)
+        if (layout::words()[i].name == std::string(word))
+            return (int)i;
+    return -1;
 }
 
 std::string encode(const Case& c) {
@@ -188,6 +218,16 @@ struct Model {
             regs[flat::F_repc] = n & 0xFF;
             regs[flat::F_rep] = 1;
             break;
+        case 6:
+        case 7:
+        case 8:
+        case 9: { // mov #imm16, st0 / st2 / mod3 / stt2: two words; the word's writable fields take the value, its read-only bits
+                  // (the pending latches among them) and everything outside the word stay
+            uint64_t pc = regs[flat::F_pc] + 1;
+            regs = layout::write(layout_index(kStWord[instr - 6]), regs, (uint16_t)n);
+            regs[flat::F_pc] = pc;
+            break;
+        }
         }
         // entry: first boundary where the global and the line enable are set and no repeat is running
         if (regs[flat::F_ie] && !regs[flat::F_rep]) {
@@ -257,6 +297,7 @@ rc::Gen<Op> genOp() {
         gen::map(vf::range<uint32_t>(0, 1u << 13), [](uint32_t v) { return Op{PokeCore, v, 0, 0}; }),
         gen::map(vf::range<uint32_t>(0, 1u << 13), [](uint32_t v) { return Op{PokeCore, v | 0x0F, 0, 0}; }), // everything enabled
         gen::map(gen::pair(gen::element<uint32_t>(1, 1, 2, 3, 3, 4, 5), vf::range<uint32_t>(0, 6)), [](std::pair<uint32_t, uint32_t> p) { return Op{Exec, p.first, p.second, 0}; }),
+        gen::map(gen::pair(vf::range<uint32_t>(6, 10), bits), [](std::pair<uint32_t, uint32_t> p) { return Op{Exec, p.first, p.second, 0}; }),
         gen::map(gen::pair(vf::range<uint32_t>(0, 2), vf::range<uint32_t>(1, 6)), [](std::pair<uint32_t, uint32_t> p) { return Op{TimerStart, p.first, p.second, 0}; }),
         gen::map(gen::pair(vf::range<uint32_t>(0, 3), vf::range<uint32_t>(0, 2)), [](std::pair<uint32_t, uint32_t> p) { return Op{HostSend, p.first, p.second, 0}; }),
         gen::just(Op{DmaStart, 0, 0, 0}),
@@ -313,11 +354,17 @@ vf::Result check(const Case& cs) {
         for (unsigned j = 0; j < k; ++j) {
             uint32_t pc = (uint32_t)m.regs[flat::F_pc];
             uint16_t saved = 0;
+            uint16_t saved2 = 0;
             if (instr && j == 0) {
                 static const char* forms[] = {"", "eint()", "dint()", "reti(CondValue)", "retic(CondValue)", "rep(Imm8)"};
-                uint16_t w = instr == 5 ? W(forms[5], {(long)(n & 0xFF)}) : (instr >= 3 ? W(forms[instr], {0}) : W(forms[instr], {}));
+                uint16_t w = instr >= 6 ? mov_imm_to(kStWord[instr - 6])
+                                        : (instr == 5 ? W(forms[5], {(long)(n & 0xFF)}) : (instr >= 3 ? W(forms[instr], {0}) : W(forms[instr], {})));
                 saved = s.t->ProgramRead(pc);
                 s.t->ProgramWrite(pc, w);
+                if (instr >= 6) {
+                    saved2 = s.t->ProgramRead(pc + 1);
+                    s.t->ProgramWrite(pc + 1, (uint16_t)n);
+                }
             }
             uint64_t e0 = m.entries;
             bool pending_masked = false;
@@ -328,8 +375,11 @@ vf::Result check(const Case& cs) {
                                 (m.regs[flat::F_ipv] || m.vlatch)) >= 2;
             bool during_rep = m.regs[flat::F_rep] != 0;
             auto o = s.guarded([&] { s.t->Run(1); });
-            if (instr && j == 0)
+            if (instr && j == 0) {
                 s.t->ProgramWrite(pc, saved);
+                if (instr >= 6)
+                    s.t->ProgramWrite(pc + 1, saved2);
+            }
             if (o.kind != 0)
                 return fail("C07:" + ctx + ":outcome", "Run(1) ended with " + o.what, i);
             m.step(j == 0 ? instr : 0, n);
@@ -427,6 +477,18 @@ vf::Result check(const Case& cs) {
         }
         case Exec: {
             static const char* nm[] = {"nop", "eint", "dint", "reti", "retic", "rep"};
+            if (op.a >= 6 && op.a <= 9) { // a status word written by the program (never under a single-instruction repeat: two words)
+                if (m.regs[flat::F_rep]) {
+                    vf::klass("status-word write skipped (repeat running)");
+                    break;
+                }
+                trace += std::string("mov#") + vf::hex(op.b & 0xFFFF) + "," + kStWord[op.a - 6] + " ";
+                vf::klass(std::string("program writes ") + kStWord[op.a - 6]);
+                r = do_steps(i, 1, (int)op.a, op.b & 0xFFFF, ctx);
+                if (!r.ok)
+                    return r;
+                break;
+            }
             trace += std::string(nm[op.a % 6]) + (op.a % 6 == 5 ? "#" + std::to_string(op.b) : "") + " ";
             // a return pops whatever the stack holds; keep the target inside the sled
             if ((op.a % 6 == 3 || op.a % 6 == 4)) {
